@@ -51,6 +51,9 @@ pub struct Case {
 
 pub struct WirePart;
 
+/// Signatures that rest on elapsed time: a latency bound, the reply watchdog, pgcat's own 400 ms checkout timeout firing.
+const TIMED_SIGS: &[&str] = &["added-waiting", "client-not-answered", "client-got-pooler-error"];
+
 impl Part for WirePart {
     type Case = Case;
     fn prop(&self) -> &'static str {
@@ -63,7 +66,7 @@ impl Part for WirePart {
         true
     }
     fn rule(&self) -> String {
-        "1..2 shards of one primary (+ optional replica), 0..3 mirrors attached to generated (shard, server index) pairs, each mirror in one of {up, accept-and-close, dead port, refusing authentication, hanging at start-up, hanging at the first query, slow, closing on the first message, answering with errors, not reading for 750 ms while ten 1 MiB statements pass through the mirrored server and then reading on}; 1..2 clients run 1..3 generated transactions (simple, multi-statement, blocks, extended batches, COPY IN/OUT) on a selected shard. Oracles: every request is answered with the client's own rows within 600 ms plus the statement's own scripted delay (one client pause of 520 ms lets the mirror pool's 400 ms connect timeout elapse) (mirror faults last the whole case, so any waiting on a mirror shows); the byte stream each mirror session received splits into whole units (runs of messages ending in Query/Sync/CopyDone/CopyFail, single CopyData) that form an in-order subsequence of the units one session of the mirrored server received, byte-exact (a truncated last unit is tolerated only on a session the mirror itself broke). Non-trivial = a mirror that is not plainly up, or a mirror configured on only one of two shards".into()
+        "1..2 shards of one primary (+ optional replica), 0..3 mirrors attached to generated (shard, server index) pairs, each mirror in one of {up, accept-and-close, dead port, refusing authentication, hanging at start-up, hanging at the first query, slow, closing on the first message, answering with errors, not reading for 750 ms while ten 1 MiB statements pass through the mirrored server and then reading on}; 1..2 clients run 1..3 generated transactions (simple, multi-statement, blocks, extended batches, COPY IN/OUT) on a selected shard. Oracles: every request is answered with the client's own rows within 600 ms plus the statement's own scripted delay (one client pause of 520 ms lets the mirror pool's 400 ms connect timeout elapse) (mirror faults last the whole case, so any waiting on a mirror shows); a failure of one of these time-derived oracles (latency bound, reply watchdog, pgcat's own 400 ms checkout timeout answering a client with a pool error) counts only when the case, executed again from scratch twice, fails again both times - otherwise the case is inconclusive (label timed-signal-not-reproduced); the byte stream each mirror session received splits into whole units (runs of messages ending in Query/Sync/CopyDone/CopyFail, single CopyData) that form an in-order subsequence of the units one session of the mirrored server received, byte-exact (a truncated last unit is tolerated only on a session the mirror itself broke). Non-trivial = a mirror that is not plainly up, or a mirror configured on only one of two shards".into()
     }
     fn cases(&self, tier: Tier) -> u64 {
         tier.pick(800, 12_000)
@@ -92,7 +95,11 @@ impl Part for WirePart {
             .boxed()
     }
     fn run(&self, c: &Case, ctx: &mut WorkerCtx) -> Outcome {
-        wire::run_async(run_case(c, ctx))
+        let first = wire::run_async(run_case(c, ctx));
+        if ctx.shrinking {
+            return first;
+        }
+        crate::engine::confirm_timed(first, TIMED_SIGS, 2, || wire::run_async(run_case(c, ctx)))
     }
 }
 
@@ -232,6 +239,8 @@ async fn run_case(c: &Case, ctx: &mut WorkerCtx) -> Outcome {
     // ---- client programs
     let t0 = Instant::now();
     let lag = std::sync::Arc::new(wire::LagMonitor::start(t0));
+    // per-request timeline of the case (goes into the detail of a failure)
+    let timeline: std::sync::Arc<std::sync::Mutex<Vec<String>>> = Default::default();
     let mut handles = vec![];
     for (i, (shard, txns)) in c.clients.iter().enumerate() {
         let id = i as u32 + 1;
@@ -240,6 +249,7 @@ async fn run_case(c: &Case, ctx: &mut WorkerCtx) -> Outcome {
         let shard = *shard;
         let linger = faulty;
         let lag = lag.clone();
+        let timeline = timeline.clone();
         handles.push(tokio::spawn(async move {
             let mut problems: Vec<(String, String)> = vec![];
             let mut cli = match cli {
@@ -263,6 +273,10 @@ async fn run_case(c: &Case, ctx: &mut WorkerCtx) -> Outcome {
                         prog::Req::Batch(v) => v.iter().filter_map(|m| if let prog::Ext::Parse(_, s, _) = m { Some(s.delay_ms as u64) } else { None }).max().unwrap_or(0),
                         _ => 0,
                     };
+                    // (time during which the harness itself was not scheduling - busy mock backends, starved CPU - is not the pooler's)
+                    let took_ms = (x.t_done_us - x.t_send_us) / 1000;
+                    let harness_ms = lag.lag_ms_between(x.t_send_us, x.t_done_us);
+                    timeline.lock().unwrap().push(format!("c{} {} sent@{}ms took {} ms (harness lag {} ms) {}", id, x.tags.iter().map(|t| t.short()).collect::<Vec<_>>().join(","), x.t_send_us / 1000, took_ms, harness_ms, if x.reply.iter().any(|m| m.code == b'E') { format!("errors {:?}", crate::cli::errors(&x.reply)) } else { String::new() }));
                     if !matches!(x.end, ReadEnd::Ready(_)) {
                         problems.push(("client-not-answered".into(), format!("request {:?} ended {:?}", x.tags, x.end)));
                         break 'outer;
@@ -275,9 +289,6 @@ async fn run_case(c: &Case, ctx: &mut WorkerCtx) -> Outcome {
                         problems.push(("client-got-pooler-error".into(), format!("{:?}", crate::cli::errors(&x.reply))));
                         break 'outer;
                     }
-                    // (time during which the harness itself was not scheduling - busy mock backends, starved CPU - is not the pooler's)
-                    let took_ms = (x.t_done_us - x.t_send_us) / 1000;
-                    let harness_ms = lag.lag_ms_between(x.t_send_us, x.t_done_us);
                     if took_ms > 600 + scripted + harness_ms {
                         problems.push(("added-waiting".into(), format!("request {:?} took {} ms (scripted server delay {} ms, harness lag {} ms)", x.tags, took_ms, scripted, harness_ms)));
                         break 'outer;
@@ -295,6 +306,7 @@ async fn run_case(c: &Case, ctx: &mut WorkerCtx) -> Outcome {
         let shard = c.mirrors[mi].shard;
         let cli = env.client(40, "u", "db", "pw", &[]).await;
         let lag = lag.clone();
+        let timeline = timeline.clone();
         bulk_handle = Some(tokio::spawn(async move {
             let mut problems: Vec<(String, String)> = vec![];
             let mut cli = match cli {
@@ -316,6 +328,7 @@ async fn run_case(c: &Case, ctx: &mut WorkerCtx) -> Outcome {
                     break;
                 }
                 let harness_ms = lag.lag_ms_between(from_us, t0.elapsed().as_micros() as u64);
+                timeline.lock().unwrap().push(format!("bulk {} sent@{}ms took {} ms (harness lag {} ms)", t.short(), from_us / 1000, started.elapsed().as_millis(), harness_ms));
                 if started.elapsed().as_millis() as u64 > 900 + harness_ms {
                     problems.push(("added-waiting".into(), format!("1 MiB statement {} took {} ms while a mirror was stalled (harness lag {} ms)", t.short(), started.elapsed().as_millis(), harness_ms)));
                     break;
@@ -355,7 +368,8 @@ async fn run_case(c: &Case, ctx: &mut WorkerCtx) -> Outcome {
             o.inconclusive = Some(format!("{}: {}", sig, d));
         } else {
             let modes: Vec<String> = c.mirrors.iter().map(|m| format!("{:?}", m.mode)).collect();
-            o.fail(&sig, format!("{} (mirror modes {:?}); pgcat stderr: {}", d, modes, stderr));
+            let tl = timeline.lock().unwrap().join("\n");
+            o.fail(&sig, format!("{} (mirror modes {:?})\ntimeline (mirrors resume 750 ms after the clients start):\n{}\npgcat stderr: {}", d, modes, tl, stderr));
         }
         return o;
     }
